@@ -25,22 +25,37 @@ def pendingOf (s : State) : List ((Addr × PoolId) × Option (CoinList × CoinLi
 def samePending (a b : State) : Bool :=
   (pendingOf a).all fun e => (pendingOf b).any fun e2 => e2.1 == e.1 && e2.2 == e.2
 
-/-- clauses of an `export` line: the document of a reachable state validates, carries no escrow
-record and lists the farmer records in store order -/
-def checkExport (pre : State) (validate escrow fiorder : String) : List String :=
+/-- clauses of an `export` line (the block is finished first; `post` is the exported state):
+the document of a reachable state validates, carries no escrow record, lists the farmer records
+in store order, and the state is a between-blocks state -/
+def checkExport (res validate escrow fiorder : String) (post : State) : List String :=
+  if res != "ok" then ["clause=endblock-abort"] else
   (if validate == "ok" then [] else ["clause=export-invalid"]) ++
   (if escrow == "0" then [] else ["clause=export-escrow"]) ++
-  (if fiorder == "ok" then [] else ["clause=export-order"])
+  (if fiorder == "ok" then [] else ["clause=export-order"]) ++
+  (if blockStartB post then [] else ["clause=export-midblock"])
 
-/-- clauses of a `reimport` line: the import succeeds and every query of the projection —
-pools with heights / rules / remaining / reward per share, farmers with stake and debt, the
-queue, the sequence, every observed balance — and every pending reward is what it was -/
-def checkReimport (pre : State) (res : String) (post : State) : List String :=
+/-- the queue entries of `pre` that are not due at `pre.height` -/
+def keptQueue (pre : State) : List (Int × PoolId) := pre.queue.filter fun e => !(decide (e.1 = pre.height))
+
+/-- clauses of a `reimport` line (finish the block, export, wipe, `InitGenesis` at the next
+height; `same` = the harness found the canonical state projection unchanged by the import): the
+import succeeds; the state after it is the state before it; judged independently from the two
+observed states: every farmer record, the sequence, every pool that was not due in the closed
+block and every queue entry that was not due are exactly what they were, nothing was added to
+the queue, and every pending reward of a farmer of an untouched pool is the same -/
+def checkReimport (pre : State) (res same : String) (post : State) : List String :=
   if res != "ok" then ["clause=reimport-failed"]
   else
-    (if !(blockStartB pre) then [] -- a mid-block import (outside the property: exports are taken between blocks)
-     else if C05.sameObserved pre post && decide (pre.height = post.height) then []
-     else ["clause=reimport-changed-state"]) ++
-    (if samePending pre post then [] else ["clause=reimport-pending"])
+    (if same == "1" then [] else ["clause=reimport-changed-state"]) ++
+    (if decide (post.height = pre.height + 1) then [] else ["clause=reimport-height"]) ++
+    (if C05.sameMap pre.farmers post.farmers && pre.seq == post.seq then [] else ["clause=reimport-farmers"]) ++
+    (if pre.pools.all (fun e => (pre.queue.contains (pre.height, e.1)) ||
+          (match getPool post e.1 with | some q => C05.sameMap [(e.1, e.2)] [(e.1, q)] | none => false))
+        && post.pools.all (fun e => (getPool pre e.1).isSome) then []
+     else ["clause=reimport-pools"]) ++
+    (if (keptQueue pre).all post.queue.contains && post.queue.all (keptQueue pre).contains then []
+     else ["clause=reimport-queue"]) ++
+    (if blockStartB post then [] else ["clause=reimport-midblock"])
 
 end Irismod.Spec.C12Farm
